@@ -54,6 +54,8 @@ def reader_ops(n, key):
         ops += [("seek", 0), ("skiptake", 1, 1), ("hint",), ("skiptake", n, 2), ("hint",), ("it", -1)]
         # ... and on an iteration resumed in the middle (the adaptors count from where the reader stands)
         ops += [("seek", 0), ("it", 1), ("skiptake", 0, 1), ("hint",), ("skiptake", 1, 1), ("hint",), ("it", -1)]
+    # a seek beyond the last shape, then the size hint (nothing is left) and an iteration; the same at exactly the end
+    ops += [("seek", n + 3), ("hint",), ("it", -1), ("seek", n), ("hint",), ("it", 1), ("seek", 0), ("hint",)]
     return ops
 
 
@@ -205,6 +207,29 @@ def run(rep, tier, rng):
     rep.sample({"type": files[0]["code"], "calls": files[0]["calls"], "reader_ops": reader_ops(len(files[0]["specs"]), 0)})
     rep.cov["oracle"] = {"files": len(files), "reader_histories": len(rcases), "failing": nfail}
     path_pairs(rep, files[:(40 if tier == "thorough" else 12)])
+    # ---- a finalize that fails once (I/O fault at one of its operations on either destination), then more shapes: the
+    # index the writer finally leaves still addresses exactly the records of the .shp
+    fn = 0
+    for code in (shapes.ALL_CODES if tier == "thorough" else rng.sample(shapes.ALL_CODES, 4)):
+        a, b, c2 = (shapes.gen_ctor(rng, code, "small") for _ in range(3))
+        one = C.parse_whist(sfv.run_impl(dev, [C.whist_case(True, 0, [("w", a)])])[0])
+        if "special" in one:
+            continue
+        fcases = [C.whist_case(True, 0, [("w", a), ("f",), ("w", b), ("w", c2)], fault=(dest, n0 + j, 0))
+                  for dest, n0 in ((1, one["shp"]["ops"] - 16), (2, one["shx"]["ops"] - 16))
+                  for j in (range(16) if tier == "thorough" else (0, 3, 9, 14, 15))]
+        for fc, r in zip(fcases, stages.correspondence(rep, "whist_ff", dev, fcases, "whist(finalize failing once, then more shapes)", vm_sample=10)):
+            res = C.parse_whist(r)
+            fn += 1
+            if "special" in res or res["results"][1][0] != "err" or any(x != ("ok",) for x in res["results"][2:]):
+                continue
+            msg = oracle_index({"written": res, "calls": [("w", 0), ("w", 1), ("w", 2)]})
+            if msg:
+                nfail += 1
+                rep.violation({"kind": "oracle", "what": "after a finalize that failed once (destination %d) and two more shapes: %s" % (fc[3], msg),
+                               "case_kind": "whist", "case": fc})
+                break
+    rep.cov["histories_with_a_failed_finalize_then_more_shapes"] = fn
     # ---- the complete reader reports the number of index entries as well, whatever the table holds (here: fewer rows
     # than shapes, after calls whose row the table refused — the situation of known finding F10 of C08)
     import C08
